@@ -383,13 +383,15 @@ package wire
 //@   atreturn [trailer-eof] {C14} fields == 65535 ==> err == io.EOF
 //@   atreturn [field-spans-messages] {C14} (err != nil && arr(value) == 0 && len(r.reader.Reader.Msg) < length) ==> #nIn > old(#nIn) + (old(len(r.reader.Reader.Msg)) == 0 ? 1 : 0)
 //@   callsite callback:wire.Scanner [own-scanner] {C14} $0 == r.scanners[$n] && arr($value) == arr(r.reader.Reader.Msg) && off($value) + len($value) == off(r.reader.Reader.Msg)
-//@   modifies r.reader.Reader.Buffer.#pos, arrayof(r.reader.Reader.header), r.reader.Reader.Msg, memtail(r.reader.Reader.Msg), #maxalloc, #nalloc, #nIn, #lastIn
+//@   modifies r.reader.Reader.Buffer.#pos, arrayof(r.reader.Reader.header), r.reader.Reader.Msg, memtail(r.reader.Reader.Msg), #maxalloc, #nalloc, #nIn, #lastIn, #nScan
 //@   loop 0
 //@     invariant [ok] r.reader != nil && ReaderOK(r.reader.Reader)
 //@     invariant [range] 0 <= $index + 1 && $index + 1 <= fields && len(row) == fields && fields == len(r.scanners)
 //@     invariant [silent] OutSame()
 //@     invariant [alloc-bound] #maxalloc <= max(old(#maxalloc), max(max(r.reader.Reader.MaxMessageSize, 4096), 16 * 65535))
 //@     invariant [own-array] arr(row) > old(#alloc)
+//@     step [null-only-for-marker] {C14} (#nScan == old(#nScan)) ==> mbe32(arr(old(r.reader.Reader.Msg)), off(old(r.reader.Reader.Msg))) == 4294967295
+//@     step [one-scan-per-field] {C14} #nScan <= old(#nScan) + 1
 //@     decreases fields - $index
 
 //@ func NewScanner$1
@@ -908,6 +910,7 @@ package wire
 //@   loop 0
 //@     invariant [own-map] meta != nil && meta > old(#alloc)
 //@     invariant [window] Advanced(reader.Msg, old(reader.Msg))
+//@     step [pair-stored-last-wins] {C12} mapdom(meta, key) && meta[key] == value
 //@     decreases len(reader.Msg)
 
 //@ func (*Server).writeParameters
@@ -1016,6 +1019,9 @@ package wire
 //@   callsite buffer.NewWriter [writer-on-upgraded] {C11} $writer == box(conn)
 //@   callsite (*wire.Server).readClientParameters [reads-on-upgraded] {C11} $reader == reader && reader.Buffer.#src == val(conn)
 //@   callsite (*wire.Server).handleAuth [auth-on-upgraded] {C11 C01} $reader == reader && $writer == writer && #nOut == old(#nOut) && #nParse == old(#nParse)
+//@   callsite (*wire.Server).handleAuth [writes-on-upgraded] {C11} $writer.Writer == box(conn)
+//@   callsite (*wire.Server).writeParameters [writes-on-upgraded] {C11} $writer.Writer == box(conn)
+//@   callsite (*wire.Session).consumeCommands [writes-on-upgraded] {C11} $writer.Writer == box(conn) && $conn == conn
 //@   callsite (*wire.Server).writeParameters [authed-before-params] {C01 C12} #nAccept == old(#nAccept) + 1 && #nZ == old(#nZ) && $params == srv.Parameters && $writer == writer
 //@   callsite callback:wire.SessionHandler [session-once-after-auth] {C19 C01} #nAccept == old(#nAccept) + 1 && #nSession == old(#nSession) && #nZ == old(#nZ) && $self == srv.Session
 //@   callsite (*wire.Session).consumeCommands [session-before-commands] {C19 C01 C12} #nAccept == old(#nAccept) + 1 && #nSession == old(#nSession) + 1 && #sessErrTag == 0 && val($ctx) == #sessCtx && #nZ == old(#nZ) && #nParse == old(#nParse) && #nExec == old(#nExec) && $reader == reader && $writer == writer && $conn == conn
